@@ -173,6 +173,12 @@ def exec_cases(draw, max_len=40):
         k = draw(st.integers(0, live))
         ops.append(["prefix", k])
         ops.append(["dump", [k], rev])
+        # what SDPOR's get_missing_source_set_actors_from does: extend the prefix (only the order among the new events is asserted)
+        m = draw(st.integers(0, 6))
+        if m and n:
+            for j in range(m):
+                ops.append(["push", ts[(k + 1 + j * 3) % n]])
+            ops.append(["dump", [], rev])
     return {"mode": "exec", "syn": tabs, "ops": ops}
 
 
@@ -184,9 +190,11 @@ def run_case(case, cpu=20, wall=120):
 
 
 def shadow_exec(ops):
-    """What the sequence of transition specs of the Execution must be at each dump op: {op index: [spec]}."""
+    """What the Execution must hold at each dump op: {op index: ([spec], base)}.  base = None, or k when the execution is a prefix
+    (get_prefix_before(k)) that was extended afterwards: events >= k were pushed onto the prefix."""
     cur = []
     res = {}
+    base = None
     for idx, op in enumerate(ops):
         w = op[0]
         if w == "push":
@@ -195,13 +203,15 @@ def shadow_exec(ops):
             cur.extend(op[1])
         elif w == "ctor":
             cur = list(op[1])
+            base = None
         elif w == "pop":
             if cur:
                 cur.pop()
         elif w == "prefix":
             cur = cur[:min(op[1], len(cur))]
+            base = len(cur)
         elif w == "dump":
-            res[idx] = list(cur)
+            res[idx] = (list(cur), base if base is not None and len(cur) > base else None)
     return res
 
 
